@@ -10,11 +10,18 @@ RULE = ("exhaustive (bare ModList): every assignment of {sync ok, sync fail, com
         "well behaved (sync, later, failing, panicking-after-next modules; completions aimed at the module that is waiting), "
         "one third adversarial (double/triple next, panic before next, stale and out-of-range completions, repeated "
         "Start/Stop), 30% of the App/node histories in cluster mode against the in-process etcd stand-in with 0-2 failing etcd "
-        "operations; builtin: 77 fixed scenarios x the real Welcome/ActorSystem/Cluster modules: self cluster, remote listen "
+        "operations, 20% of them with owner callbacks that themselves request App.Start / App.Stop; 7% bare ModList on a node "
+        "that has its node info (MListNode: fixed / busy / free address, cluster mode) with restarts of the same module "
+        "objects; builtin: 130 fixed scenarios x the real Welcome/ActorSystem/Cluster modules: self cluster, remote listen "
         "failure, nil node info, stop paths, and cluster mode with every step of ClusterModule.Start/Stop failing in turn "
         "(NewWithConfig, init, fetch Get / undecodable listing, watch stream, lease Grant, register Put, keep-alive Grant / Put / "
         "expired lease, deregister Delete) in node, App and bare-list mode incl. Stop after a failed Start, Start twice, Stop "
-        "twice, several faults at once, two cluster modules. Non-trivial = at least one module Start/Stop was entered; "
+        "twice, several faults at once, two cluster modules; second life cycles (stop after a Start that failed at the remote "
+        "listen step, start-stop-start-stop with the listener of the first cycle still bound / on a fresh port, Start twice, "
+        "restarts of scripted, actor and cluster modules, refused restarts through App and node); requests from inside the "
+        "completion callbacks in App and node mode (Stop inside the start callback under the list lock = deadlock, outside it "
+        "= nested stop run, after a late failure, with double next, panicking and stale completions; Start inside the start "
+        "and stop callbacks, Stop inside the stop callback). Non-trivial = at least one module Start/Stop was entered; "
         "distinct = distinct op lists.")
 TRUSTED_BASE = [
     "Coq 8.16.1 kernel + vm_compute (case evaluation, Examples); no native_compute",
@@ -23,6 +30,9 @@ TRUSTED_BASE = [
     "measured by this correspondence run on every case",
     "Go harness harness/c11 (recording wrapper modules; run ids attributed by the harness from the call in progress; "
     "each operation executed on its own goroutine and joined; 3 s watchdog), bin/check.py JSON->Coq term printer",
+    "deadlock observation: a request made inside a completion callback is reported as EDeadlock when the App's list lock "
+    "was held at that moment (TryLock on the real sync.RWMutex, reached by reflection: the fields are unexported) and the "
+    "call has not returned after 60 ms; operations are sequential, so a held lock is held by the requesting goroutine",
     "harness/c11/etcdfake.go: gRPC stand-in for etcd (KV Range/Put/DeleteRange, Lease Grant/Revoke/KeepAlive, Watch) that the "
     "module's REAL clientv3 client dials via cluster.yaml's ETCDServer; faults are injected server-side per connection as "
     "non-retryable etcd errors (ResourceExhausted), a cancelled watch, an expired lease, an undecodable value; "
@@ -43,6 +53,12 @@ ASSUMPTIONS = [
     "succeeded; a bare ModList.Stop after a failed Start panics inside these Stops and never calls next - observed on the "
     "real code and modelled as such); the monitor exempts exactly the calls entered without that precondition "
     "(Spec.unclaimed, computed from the implementation's own entries) and counts one next per call everywhere else",
+    "owner callbacks make at most one request each and only at App level (baseapp.App / node App); a bare ModList has no "
+    "owner in the model. A request accepted while ModList.Filter holds the list lock never returns on the real code "
+    "(sync.RWMutex is not reentrant): modelled as EDeadlock, after which the history is over (C11_after_deadlock); "
+    "the monitor accepts it as the honoured outcome of the guard",
+    "AFixed: the port stays bound by the remote of the first actor system for the rest of the history (no Stop closes the "
+    "listener - observed), so a restart of the actor module on a fixed address fails at the listen step",
     "the launch mode's PrepareModules adds the modules once (LaunchAppWithMode calls it before the state guard)",
     "hooks/C11-fix-cluster-start-return.patch and hooks/C11-fix-actor-start-listen-panic.patch are applied to the repo under test",
 ]
@@ -52,7 +68,8 @@ TECHNIQUE = ("Coq proof (work-list semantics of the continuation machine; per-ru
 LEVEL_TEXT = ("Machine-checked Coq theorems, unbounded in module lists, behaviours, histories and orders of delayed completions: "
               "start order / first failure / finish exactly once / exact reverse stop order under the at-most-once resp. "
               "exactly-once hypothesis, unconditional accounting and no-double-entry theorems, App state guards, one next() on "
-              "every path of every shipped module (repaired code) with the fault point of every step explicit (cluster: NewWithConfig, "
+              "every path of every shipped module (repaired code), also in second life cycles of the same module objects and for "
+              "App-level requests made from inside the completion callbacks, with the fault point of every step explicit (cluster: NewWithConfig, "
               "init, fetch, watch, register, keep-alive, deregister). The model is tied to the Go code by running both on the same "
               "histories each run (events must be identical) and by evaluating the theorem statements on the implementation's own traces.")
 
